@@ -10,6 +10,22 @@ def check(ctx):
         errors.r14_err_discipline(ctx, include=lambda m: m.name != 'dataflows.cli', floor=28)
     errors.r14_funnel(ctx)
     errors.r14_stash(ctx)
+    # a source that is another flow is exhausted within this run, so that a step of it failing at end of stream fails this run
+    from checks import C13
+    ld_ = ctx.repo.cls('dataflows.processors.load:load')
+    pr_ = ctx.N(ld_.methods['process_resources'], keep=('missing_values_extractor', 'caster', 'stripper', 'limiter'))
+    import ast as _a4
+    from sa.loader import own_nodes as _own4
+    from sa.model import u as _u4
+    all_ = [n for n in _own4(pr_.node) if isinstance(n, _a4.For)]
+    from rules.stream import once_bound as _ob4
+    for n in all_:
+        n.iter = _ob4(pr_.node, n.iter)
+    zl_ = [n for n in all_ if isinstance(n.iter, _a4.Call) and _u4(n.iter.func) in ('zip', 'itertools.zip_longest')]
+    if len(zl_) != 1:
+        from sa.loader import AnalysisError
+        raise AnalysisError('load.process_resources: pair loop not found')
+    C13.driven_to_end(ctx, pr_, zl_[0], [n for n in all_ if n is not zl_[0]])
     errors.r14_stopiteration_drivers(ctx)
     run.rule('R15', 'COMMIT-ORDER: commit points (checkpoint rename, dump descriptor, zip finalisation) come after the loop '
                     'over all resource streams on the normal path and are never reachable from an except / finally block')
